@@ -417,9 +417,10 @@ func newRecordIterators(ctx *Context, structType reflect.Type, name string) (typ
 	recordIterator = func(context *Context, value reflect.Value) {
 		context.EventReceiver.OnRecord(identifier)
 		for _, field := range fields {
-			fieldValue := field.getValueFromStruct(value)
-			if shouldIncludeField(field, fieldValue, ctx.Configuration.Iterator.DefaultFieldOmitBehavior) {
-				field.Iterate(context, fieldValue)
+			// A record must supply exactly the values its record type declares,
+			// so the decision cannot depend on the field's current value.
+			if shouldIncludeField(field, dummyValue, ctx.Configuration.Iterator.DefaultFieldOmitBehavior) {
+				field.Iterate(context, field.getValueFromStruct(value))
 			}
 		}
 		context.EventReceiver.OnEndContainer()
